@@ -37,7 +37,7 @@ def plan(tier, seed):
 def floors(tier):
     return {"distinct_nontrivial": 500, "cls:n=0": 300, "cls:n=1": 300, "cls:n>=2": 300, "cls:form:entity": 200,
             "cls:form:set_of": 300, "cls:ambient:query": 100, "cls:ambient:rule": 100, "cls:caching_off": 200,
-            "cls:equal_valued_distinct_objects": 300, "cls:solutions_equal_by_value": 50,
+            "cls:equal_valued_distinct_objects": 300, "cls:domain_without_instances_of_the_type": 100, "cls:solutions_equal_by_value": 50,
             "re:The(@.*)?\\.enter": 0}
 
 
@@ -68,6 +68,10 @@ def cases(spec, ctx):
                 break
         best["form"] = "entity" if len(best["kinds"]) == 1 and rng.random() < 0.8 else "set_of"
         best["sel"] = sorted(best["sel"]) if best["form"] == "entity" else best["sel"]
+        if rng.random() < 0.08:
+            # the supplied domain holds no instance of the variable's type (empty, or only objects of another type) while
+            # instances of the type exist elsewhere: zero solutions
+            best["domain_override"] = [rng.randrange(len(best["kinds"])), rng.choice(["empty", "other_type"])]
         best["ambient"] = rng.choice(["none", "none", "query", "rule"])
         best["caching"] = rng.random() < 0.7
         yield best
@@ -83,11 +87,20 @@ def _ctx(mode):
     return contextlib.nullcontext()
 
 
+def _doms(case, world):
+    doms = H.domains(world, case["kinds"])
+    if case.get("domain_override"):
+        i, how = case["domain_override"]
+        other = "Q" if case["kinds"][i] != "Q" else "P"
+        doms[i] = [] if how == "empty" else list(world[other])
+    return doms
+
+
 def run(case, world):
     from entity_query_language import MultipleSolutionFound, NoSolutionFound
     from entity_query_language.cache_data import enable_caching, disable_caching
     m = H.labels_of(world)
-    doms = H.domains(world, case["kinds"])
+    doms = _doms(case, world)
     (enable_caching if case["caching"] else disable_caching)()
     outs = []
     try:
@@ -115,7 +128,9 @@ def run(case, world):
 
 def check_case(case, ctx):
     world = D.build_world(case["world"])
-    exp_rows = multi.expected(case, world)
+    exp_rows = [] if case.get("domain_override") else multi.expected(case, world)
+    if case.get("domain_override"):
+        ctx.cls("cls:domain_without_instances_of_the_type")
     n = len(exp_rows)
     ctx.cls("cls:n=0" if n == 0 else "cls:n=1" if n == 1 else "cls:n>=2")
     ctx.cls("cls:form:" + case["form"])
